@@ -646,6 +646,36 @@ fn gen_change_between_renders(rng: &mut Rng, sw: &Swarm, tg: &mut TaskGen, n_inp
             ops.push(plain(Op::NewSvg { slot }));
         }
     }
+    // Sibling renderers (every other time): two renderers whose option lists differ in the value
+    // of exactly ONE option - the colour of one coloured shape layer, one shape, one scalar -
+    // render the same code back to back, twice. Options that append (shape layers) cannot be
+    // "changed" on one renderer, so this is the only way two consecutive renders differ in
+    // nothing but such a value; anything remembered from the previous render under a key that
+    // leaves that option out shows as a difference from the other occurrences of the state.
+    if rng.chance(1, 2) {
+        if rng.chance(1, 2) {
+            setters.push(RSetter::ShapeColor(gen::gen_shape(rng, false), gen::gen_color(rng, is_img)));
+        } else if rng.chance(1, 2) {
+            setters.push(RSetter::Shape(gen::gen_shape(rng, false)));
+        }
+        let i = if matches!(setters.last(), Some(RSetter::ShapeColor(..)) | Some(RSetter::Shape(..))) && rng.chance(2, 3) {
+            setters.len() - 1
+        } else {
+            rng.usize_below(setters.len())
+        };
+        let mut sibling = setters.clone();
+        sibling[i] = other_value(rng, &setters[i], is_img);
+        for s in &setters {
+            ops.push(plain(set(0, s)));
+        }
+        for s in &sibling {
+            ops.push(plain(set(1, s)));
+        }
+        for slot in [0u8, 1, 0, 1] {
+            ops.push(plain(render(slot)));
+        }
+        return;
+    }
     for s in &setters {
         ops.push(plain(set(0, s)));
     }
@@ -657,6 +687,31 @@ fn gen_change_between_renders(rng: &mut Rng, sw: &Swarm, tg: &mut TaskGen, n_inp
     }
     ops.push(plain(set(1, &change)));
     ops.push(plain(render(1)));
+}
+
+/// The same option with another value (same shape for a coloured layer: only the colour differs).
+fn other_value(rng: &mut Rng, s: &RSetter, is_img: bool) -> RSetter {
+    for _ in 0..16 {
+        let o = match s {
+            RSetter::Margin(m) => RSetter::Margin(if rng.chance(1, 2) { m + 1 } else { *rng.pick(&[0usize, 1, 3, 6, 9]) }),
+            RSetter::ModuleColor(_) => RSetter::ModuleColor(gen::gen_color(rng, is_img)),
+            RSetter::BackgroundColor(_) => RSetter::BackgroundColor(gen::gen_color(rng, is_img)),
+            RSetter::Shape(_) => RSetter::Shape(gen::gen_shape(rng, false)),
+            RSetter::ShapeColor(sh, _) => RSetter::ShapeColor(*sh, gen::gen_color(rng, is_img)),
+            RSetter::Image(i) => RSetter::Image(if *i == ImageSpec::Png { ImageSpec::Svg } else { ImageSpec::Png }),
+            RSetter::ImageBgColor(_) => RSetter::ImageBgColor(gen::gen_color(rng, is_img)),
+            RSetter::ImageBgShape(v) => RSetter::ImageBgShape((v + 1 + rng.below(2) as u8) % 3),
+            RSetter::ImageSize(_) => RSetter::ImageSize(*rng.pick(&[3.0f64, 5.0, 7.5, 9.0, 11.0])),
+            RSetter::ImageGap(_) => RSetter::ImageGap(*rng.pick(&[0.0f64, 0.5, 1.0, 2.0])),
+            RSetter::ImagePosition(..) => RSetter::ImagePosition(*rng.pick(&[8.0f64, 10.5, 14.0]), *rng.pick(&[8.0f64, 12.0, 14.5])),
+            RSetter::FitWidth(_) => RSetter::FitWidth(*rng.pick(&[16u32, 29, 64, 100, 128, 200, 256])),
+            RSetter::FitHeight(_) => RSetter::FitHeight(*rng.pick(&[16u32, 33, 64, 100, 177, 256])),
+        };
+        if &o != s {
+            return o;
+        }
+    }
+    s.clone()
 }
 
 fn burst_len(rng: &mut Rng) -> u32 {
